@@ -257,8 +257,14 @@ Conjugate_gradient_on_the_normal_equations>`_.
     s = p.copy()
     q = op.range.element()
     sqnorm_s_old = s.norm() ** 2  # Only recalculate norm after update
+    # Normal-equation residual ``A^T d`` at rounding level relative to the
+    # start: further iterations would only amplify rounding noise
+    sqnorm_s_stop = sqnorm_s_old * np.finfo(float).eps ** 2
 
     for _ in range(niter):
+        if sqnorm_s_old <= sqnorm_s_stop:  # Converged (also if start is exact)
+            return
+
         op(p, out=q)                       # q = A p
         sqnorm_q = q.norm() ** 2
         if sqnorm_q == 0.0:  # Return if residual is 0
